@@ -73,6 +73,7 @@ package cose
 //@ func cose.Mac0.Digest
 //@   props C13 C05(functional)
 //@   sweep bounds,panic,make,nilmem
+//@   requires @registered macregistered(alg)
 //@   modifies m0.Value
 //@   ensures @payload err == nil && payload == nil ==> m0.Payload != nil
 //@   ensures! err == nil && payload == nil ==> bytes(m0.Value) == MacOf(u(alg), bytes(key), u(m0.Protected), u(*m0.Payload))
@@ -87,3 +88,37 @@ package cose
 //@   sweep panic,nilmem
 //@   pure
 //@   ensures @registered err == nil ==> sigregistered(result0)
+
+// ---- algorithm registries (C09, C10): keys extracted from init on every run; the
+// key sizes are the table in the init functions (ASSUMED, listed) ----------------------
+//@ registry cose.encryptAlgorithms via cose.RegisterEncryptAlgorithm keys 1,2,3,10,11,12,13,30,31,32,33,-65534,-65533,-65532,-65531,-65530,-65529
+//@ registry cose.macAlgorithms via cose.RegisterMacAlgorithm keys 4,5,6,7,14,15,25,26
+//@ spec macro encregistered(alg) = alg == 1 || alg == 2 || alg == 3 || alg == 10 || alg == 11 || alg == 12 || alg == 13 || alg == 30 || alg == 31 || alg == 32 || alg == 33 || alg == -65534 || alg == -65533 || alg == -65532 || alg == -65531 || alg == -65530 || alg == -65529
+//@ spec macro macregistered(alg) = alg == 4 || alg == 5 || alg == 6 || alg == 7 || alg == 14 || alg == 15 || alg == 25 || alg == 26
+//@ spec macro enckeysize(alg) = ite(alg == 1 || alg == 10 || alg == 12 || alg == 30 || alg == 32 || alg == -65534 || alg == -65531, 16, ite(alg == 2 || alg == -65533 || alg == -65530, 24, 32))
+//@ spec macro mackeysize(alg) = ite(alg == 4 || alg == 5 || alg == 14 || alg == 25, 16, 32)
+
+//@ func cose.EncryptAlgorithm.KeySize
+//@   nopaths
+//@   pure
+//@   requires @registered encregistered(alg)
+//@   ensures! result == enckeysize(alg)
+//@ func cose.MacAlgorithm.KeySize
+//@   nopaths
+//@   pure
+//@   requires @registered macregistered(alg)
+//@   ensures! result == mackeysize(alg)
+//@ func cose.EncryptAlgorithm.SupportsAD
+//@   nopaths
+//@   pure
+//@   requires @registered encregistered(alg)
+//@ func cose.EncryptAlgorithm.NewCrypter
+//@   nopaths
+//@   pure
+//@   requires @registered encregistered(alg)
+//@   ensures err == nil ==> result0 != nil
+//@ func cose.MacAlgorithm.NewMac
+//@   nopaths
+//@   pure
+//@   requires @registered macregistered(alg)
+//@   ensures err == nil ==> result0 != nil
